@@ -124,6 +124,7 @@ func runSys(cfg *runCfg, g *gen, n int) (cases []string, dist map[string]int, fa
 	fail := func(key, what, c string) {
 		fails = append(fails, map[string]string{"key": key, "what": what, "case": c})
 	}
+	quirk := 0
 	gating := []string{"Login", "NewProxy", "Ping", "NewWorkConn", "NewUserConn"}
 	nNotify := n / 4
 	for k := 0; k < n-nNotify; k++ {
@@ -253,7 +254,12 @@ func runSys(cfg *runCfg, g *gen, n int) (cases []string, dist map[string]int, fa
 					addEffect(c0, "fail")
 				}
 				if peer != nil {
-					observed = "ok:" + resp.RunID
+					// a reject with an empty reason reaches the client as LoginResp{Error: ""}: ask the server
+					if resp.RunID != "" && srv.Svc.VerifC15HasSession(resp.RunID) {
+						observed = "ok:" + resp.RunID
+					} else {
+						quirk++
+					}
 					peer.conn.Close()
 				}
 				return
@@ -276,8 +282,10 @@ func runSys(cfg *runCfg, g *gen, n int) (cases []string, dist map[string]int, fa
 						break
 					}
 					if r, ok := m.(*msg.NewProxyResp); ok {
-						if r.Error == "" {
+						if r.Error == "" && r.RemoteAddr != "" {
 							observed = "ok:" + r.ProxyName + r.RemoteAddr
+						} else if r.Error == "" {
+							quirk++
 						}
 						break
 					}
@@ -289,6 +297,7 @@ func runSys(cfg *runCfg, g *gen, n int) (cases []string, dist map[string]int, fa
 				} else {
 					addEffect(c0, "fail")
 				}
+				before := srv.Svc.VerifC15LastPing(peer.runID)
 				_ = peer.send(pingMsg)
 				for {
 					m, e := peer.recv(3 * time.Second)
@@ -297,8 +306,14 @@ func runSys(cfg *runCfg, g *gen, n int) (cases []string, dist map[string]int, fa
 						break
 					}
 					if r, ok := m.(*msg.Pong); ok {
-						if r.Error == "" {
+						// the heartbeat counts iff lastPing moved (Pong.Error is empty for a reject with an empty reason)
+						if srv.Svc.VerifC15LastPing(peer.runID).After(before) {
 							observed = "ok"
+							if r.Error != "" {
+								observed = "ok-but-error"
+							}
+						} else if r.Error == "" {
+							quirk++
 						}
 						break
 					}
@@ -548,5 +563,6 @@ func runSys(cfg *runCfg, g *gen, n int) (cases []string, dist map[string]int, fa
 		stubs[i].sc, stubs[i].onlyOp = nil, ""
 		stubs[i].mu.Unlock()
 	}
+	dist["sys-quirk:refusal-with-empty-reason-shown-as-success-to-client"] = quirk
 	return cases, dist, fails, nil
 }
